@@ -490,3 +490,14 @@ func (e *Engine) funcExists(target string) bool {
 	}
 	return funcIndex[target]
 }
+
+// findMethod returns the method named name in t's method set, or nil.
+func (e *Engine) findMethod(t types.Type, name string) *ssa.Function {
+	ms := e.prog.MethodSets.MethodSet(t)
+	for i := 0; i < ms.Len(); i++ {
+		if ms.At(i).Obj().Name() == name {
+			return e.prog.MethodValue(ms.At(i))
+		}
+	}
+	return nil
+}
